@@ -102,6 +102,9 @@ def try_decoding(data, encoding):
     '''Return whether the Python codec could decode the data.'''
     try:
         data.decode(encoding, 'strict')
+    except LookupError:
+        # The codec exists but is not a text encoding (hex, base64, zlib...)
+        return False
     except UnicodeError:
         # Data under 16 bytes is very unlikely to be truncated
         if len(data) > 16:
